@@ -17,8 +17,15 @@ import (
 	"bytes"
 	"encoding/hex"
 	"fmt"
+	"go/ast"
+	"go/parser"
+	"go/printer"
+	"go/token"
 	"math/big"
 	"os"
+	"path/filepath"
+	"reflect"
+	"runtime"
 	"sort"
 	"strings"
 	"time"
@@ -36,7 +43,8 @@ import (
 
 var order = bn256.Order
 
-func zs(b *big.Int) string { return hx.CoqZ(b.String()) }
+// hexadecimal literals: Coq parses them far faster than 77-digit decimals
+func zs(b *big.Int) string { return hx.CoqZ("0x" + b.Text(16)) }
 
 func randScalar(r *hx.Rng) *big.Int {
 	for {
@@ -358,6 +366,85 @@ func classify(st logical.VerifR1Step) (int, int) {
 
 func hashOf(b []byte) common.Hash { return common.BytesToHash(b) }
 
+// ---- the guard chain of round1.Update as written in the source this binary was built from ----
+
+const (
+	gType = iota
+	gExisted
+	gNoKey
+	gHashBind
+	gBadSign
+	gRandNil
+	gBadRand
+	gDup
+	gRecovered
+	gUnknown = 99
+)
+
+// guardChain parses round_sign_piece.go (found next to the hook file compiled into this binary) and
+// returns, in source order, the class of every top-level `if` of (*round1).Update.
+func guardChain() ([]int, []string, error) {
+	pc := reflect.ValueOf(logical.VerifR1New).Pointer()
+	file, _ := runtime.FuncForPC(pc).FileLine(pc)
+	src := filepath.Join(filepath.Dir(file), "round_sign_piece.go")
+	fset := token.NewFileSet()
+	f, err := parser.ParseFile(fset, src, nil, 0)
+	if err != nil {
+		return nil, nil, err
+	}
+	text := func(n ast.Node) string {
+		var b bytes.Buffer
+		printer.Fprint(&b, fset, n)
+		return b.String()
+	}
+	for _, d := range f.Decls {
+		fd, ok := d.(*ast.FuncDecl)
+		if !ok || fd.Name.Name != "Update" || fd.Recv == nil || !strings.Contains(text(fd.Recv.List[0].Type), "round1") {
+			continue
+		}
+		var codes []int
+		var conds []string
+		last := ""
+		for _, st := range fd.Body.List {
+			switch x := st.(type) {
+			case *ast.AssignStmt:
+				last = text(x)
+			case *ast.IfStmt:
+				c := text(x.Cond)
+				full := c
+				if x.Init != nil {
+					full = text(x.Init) + "; " + c
+				}
+				code := gUnknown
+				switch {
+				case strings.Contains(full, "checkBlockExisted"):
+					code = gExisted
+				case c == "!ok" && strings.Contains(last, "ConsensusVerifyMessage"):
+					code = gType
+				case c == "!ok" && strings.Contains(last, "GetMemberSignPubKey"):
+					code = gNoKey
+				case strings.Contains(c, "GetDataHash()") && strings.Contains(c, "bh.Hash"):
+					code = gHashBind
+				case c == "!si.VerifySign(pk)":
+					code = gBadSign
+				case strings.Contains(c, "sig == nil") && strings.Contains(c, "IsNil()"):
+					code = gRandNil
+				case c == "!groupsig.VerifySig(pk, r.preBH.Random, *sig)":
+					code = gBadRand
+				case c == "!add" && strings.Contains(last, "gSignGenerator.AddWitnessSign(si.GetSignerID(), si.GetSignature())"):
+					code = gDup
+				case c == "radd && generate && rgen" && strings.Contains(last, "rSignGenerator.AddWitnessSign(si.GetSignerID(), *sig)"):
+					code = gRecovered
+				}
+				codes = append(codes, code)
+				conds = append(conds, full)
+			}
+		}
+		return codes, conds, nil
+	}
+	return nil, nil, fmt.Errorf("(*round1).Update not found in %s", src)
+}
+
 func main() {
 	a := hx.ParseArgs()
 	rng := hx.NewRng(a.Seed)
@@ -366,7 +453,7 @@ func main() {
 		"replayed shares of other members, scaled/added/unrelated/identity/off-curve/nil points, wrong beacon shares, non-members, members whose key is not known, duplicates. " +
 		"direct evaluation per run: every admitted share is the sender's valid share for the block hash (and beacon), sets agree, no outsider; recovered signatures verify under the group key; " +
 		">= k honest members delivered => block generated. non-trivial = distinct run with at least one Byzantine message and at least one admitted share")
-	cs := hx.NewCases(a.Out, "From V.C15 Require Import Model Harness.", "case", "check", 40)
+	cs := hx.NewCases(a.Out, "From V.C15 Require Import Model Harness.", "case", "check", 12)
 	thorough := a.Tier == "thorough"
 
 	model.Param.SSSSThreshold = model.SSSS_THRESHOLD
@@ -374,6 +461,29 @@ func main() {
 	model.Param.GroupMemberMin = 3
 	plog := &logical.VerifR1Logger{}
 	common.DefaultLogger = plog
+
+	// ---- the guard chain as written ----
+	if codes, conds, err := guardChain(); err != nil {
+		res.Violate("C15/guard-chain:unreadable", err.Error(), nil)
+	} else {
+		bind, dup := -1, -1
+		var cl []string
+		for i, c := range codes {
+			cl = append(cl, fmt.Sprintf("%d%%N", c))
+			if c == gHashBind && bind < 0 {
+				bind = i
+			}
+			if c == gDup && dup < 0 {
+				dup = i
+			}
+		}
+		if bind < 0 || dup < 0 || bind > dup {
+			res.Violate("C15/guard-chain:no-hash-binding", "round1.Update has no guard comparing the share's data hash with bh.Hash before the share is added", conds)
+		}
+		cs.Add("CGuards "+hx.CoqList(cl), map[string]interface{}{"kind": "guard-chain", "conditions": conds})
+		res.Count("guard-chain", "guards", true)
+		res.Note("guard chain of round1.Update: " + strings.Join(conds, " | "))
+	}
 
 	nRuns := a.N
 	pairChecks := 0
@@ -621,7 +731,9 @@ func main() {
 				res.Violate("C15/panic:party-update:"+m.kind, "the party's Update panicked (recovered by the party): "+st.Logs[len(st.Logs)-1].Text[:200], desc())
 			}
 			grew := len(v.GIDs()) > before
-			if grew != (oc == oAdded || oc == oRecovered) {
+			if !grew && (oc == oAdded || oc == oRecovered) {
+				res.Violate("C15/duplicate-admitted:"+strings.TrimPrefix(m.kind, "dup:"), fmt.Sprintf("message %d (%s) was accepted as a new share (%s) although its sender already had one in the recovery set", i, m.kind, oNames[oc]), desc())
+			} else if grew != (oc == oAdded || oc == oRecovered) {
 				res.Violate("C15/harness:log-vs-state", fmt.Sprintf("message %d (%s): outcome %s but share set grew=%v", i, m.kind, oNames[oc], grew), desc())
 			}
 			if grew {
